@@ -498,6 +498,20 @@ func c05Run(c *hx.Ctx, tier, unit string) {
 				}
 			}
 		}
+		// a clock that moves on between any two readings (by a second, by less, across midnight and
+		// the year): whatever instants the signing code reads, the signature must be over the
+		// attributes it embeds
+		for _, step := range []time.Duration{time.Second, 400 * time.Millisecond, 31 * time.Minute, 24 * time.Hour} {
+			for _, ty := range c05Types()[:2] {
+				for _, n := range []int{0, 64} {
+					if !c.Next() {
+						continue
+					}
+					vtime.SetStepping(inst, step)
+					c05Check(c, 1, cert, ty, c05Content(n, ty.name == "data"), nil, fmt.Sprintf("clock advancing by %s at every reading, type=%s len=%d", step, ty.name, n))
+				}
+			}
+		}
 		return
 	}
 	k, _ := strconv.Atoi(strings.TrimPrefix(parts[1], "k"))
